@@ -375,6 +375,28 @@ theorem offset_compose (c : Coll) (h : c.isSeq = true) (m n : Int) :
   congr 2
   omega
 
+/-- `n \ s` keeps the cached counters right, also for operands with holes: the result's `Count()`
+(String: length minus the number of negative runes; Array: number of items) is the operand's and is
+the number of members of its meaning, and the result is again a well-formed sequence -/
+theorem offset_result_counts (c : Coll) (h : c.isSeq = true) (n : Int) :
+    ∃ r, Impl.offset (.val (.num n)) c = .ok r ∧ r.isSeq = true ∧ r.wfCount = true ∧
+      Impl.count r = Spec.card r.den ∧ Impl.count r = Impl.count c := by
+  have hwc : ∀ c' : Coll, c'.isSeq = true → c'.wfCount = true := fun c' hc => by
+    cases c' with
+    | one b => cases b <;> first | rfl | simp [Coll.isSeq] at hc
+    | union bs => simp [Coll.isSeq] at hc
+    | _ => rfl
+  have hcard : ∀ (c' : Coll) (name : String) (off : Int) (slots : List (Option V)), name ≠ "@" →
+      c'.members = seqMembers name off slots → Spec.card c'.den = (slots.filter Option.isSome).length :=
+    fun c' name off slots hn hm => by
+      simp only [Coll.den, V.mkSet, Spec.card, hm,
+        length_mk_of_nodup _ (nodup_seqMembers name hn off slots), length_seqMembers]
+  obtain ⟨name, off, slots, hv, hn, hm⟩ := seqView_isSeq h
+  obtain ⟨r, hr, hs, hrm⟩ := offset_members hv n
+  refine ⟨r, hr, hs, hwc r hs, count_eq_card r (hwc r hs), ?_⟩
+  rw [count_eq_card r (hwc r hs), count_eq_card c (hwc c h), hcard r name _ slots hn hrm,
+    hcard c name off slots hn hm]
+
 /-- whatever `>>`, `++` and `\` return satisfies the invariants `call_refines` asks for, so the results
 can be called, transformed, concatenated and offset again under the same theorems -/
 theorem results_wf (f : F) (a b : Coll) (n : Arg) (r : Coll) (ha : a.wf = true)
